@@ -160,6 +160,29 @@ def algebra_series(inst, inj, poison=(), copies=None):
     return BlockSeries(eval=ev, shape=(nb, nb), n_infinite=k, name="Huser"), concrete
 
 
+def data_series(inst, table=None):
+    """The Hamiltonian as a pre-blocked BlockSeries over the caller's own dictionary
+    {(i, j, *n): block} (the documented `data=` form): the dictionary stays the caller's."""
+    from pymablock.series import BlockSeries
+
+    k = inst["k"]
+    nb = len(inst["sizes"])
+    if table is None:
+        order = hermitian.block_order(inst)
+        offs = np.concatenate(([0], np.cumsum(inst["sizes"])))
+        idx = [order[offs[b]:offs[b + 1]] for b in range(nb)]
+        terms = {(0,) * k: hermitian.h0_user(inst), **inst["terms"]}
+        table = {}
+        for n, m in terms.items():
+            a = hermitian.to_numpy(m, force_complex=inst["vtype"] == "numpy_complex")
+            for i in range(nb):
+                for j in range(nb):
+                    blk = np.array(a[np.ix_(idx[i], idx[j])])
+                    if np.any(blk):
+                        table[(i, j, *n)] = blk
+    return BlockSeries(data=table, shape=(nb, nb), n_infinite=k, name="Hdata"), table
+
+
 def diag_solver(inst, inj):
     """A harness-supplied solve_sylvester(Y, index): second user callback."""
     from pymablock.series import zero
@@ -187,13 +210,18 @@ def diag_solver(inst, inj):
 def build(inst, inj, *, custom_solver=False, poison=(), copies=None, shared=None, input_kind="lazy"):
     import pymablock
 
-    if shared is not None:
+    if shared is not None and input_kind == "data_series":
+        # a NEW series built from the caller's SAME dictionary
+        H, concrete = data_series(inst, shared[1])
+    elif shared is not None:
         H, concrete = shared
     elif input_kind == "dict":
         concrete = hermitian.concrete_hamiltonian(inst)
         H = concrete
     elif input_kind == "algebra":
         H, concrete = algebra_series(inst, inj, poison=poison, copies=copies)
+    elif input_kind == "data_series":
+        H, concrete = data_series(inst)
     else:
         H, concrete = user_series(inst, inj, poison=poison, copies=copies)
     kw = {}
@@ -201,7 +229,7 @@ def build(inst, inj, *, custom_solver=False, poison=(), copies=None, shared=None
         kw["solve_sylvester"] = diag_solver(inst, inj)
     else:
         kw["fully_diagonalize"] = hermitian.fd_argument(inst)
-    if input_kind != "algebra":
+    if input_kind not in ("algebra", "data_series"):
         kw["subspace_indices"] = list(inst["sub_idx"])
     with warnings.catch_warnings():
         warnings.simplefilter("ignore")
@@ -242,9 +270,14 @@ def fresh_truth(inst, p, custom_solver=False):
 def fingerprint(concrete, p):
     from scipy import sparse
 
+    from pymablock.series import zero
+
     fp = []
     for n in sorted(concrete):
         a = concrete[n]
+        if a is zero or not hasattr(a, "shape"):
+            fp.append([list(n), repr(a)])      # an entry that is not the caller's (sentinel / marker)
+            continue
         a = a.toarray() if sparse.issparse(a) else a
         # algebra input: keys are (i, j, *n) block cells; the Trace_Engine record only
         # compares fingerprints for equality
